@@ -233,6 +233,9 @@ func (c *Ctx) Finish() int {
 		cov["violation_signatures"] = vlist
 	}
 	cov["known_findings_reported"] = knownHit
+	if c.Assumptions == nil {
+		c.Assumptions = []string{}
+	}
 	evd := map[string]any{
 		"property_id": c.ID, "tier": c.Tier, "seed": c.Seed, "level": c.Level,
 		"coverage": cov, "assumptions": c.Assumptions,
